@@ -135,6 +135,9 @@ lazy_static::lazy_static! {
     static ref SIM_IDS: std::sync::atomic::AtomicU64 = std::sync::atomic::AtomicU64::new(1);
 }
 
+/// also yield before set_value's critical section (between creating a change and applying it)
+pub static FINE_POINTS: std::sync::atomic::AtomicBool = std::sync::atomic::AtomicBool::new(false);
+
 struct KillToken;
 
 fn is_tick_site(site: &str) -> bool {
@@ -157,7 +160,7 @@ pub fn install_hooks() {
                 g.trace.push(format!("[{}] n{} claims victory via {}", step, node, &site["election_win:".len()..]));
                 return;
             }
-            if site.starts_with("election:") || site == "replicate:after_apply" {
+            if site.starts_with("election:") || site == "replicate:after_apply" || (site == "db.map:set_value" && FINE_POINTS.load(std::sync::atomic::Ordering::Relaxed)) {
                 sim.park_point(tid, site);
             }
         }
